@@ -15,6 +15,11 @@
 (*              the message into chunks of the sender's chunk size         *)
 (*   RecvMsg    uacp Receive size check + uasc Receive chunk-count and     *)
 (*              message-size checks (secure_channel.go:377,399)            *)
+(*   AbortedMsg a sender gives up a message after some intermediate chunks *)
+(*              and sends an abort chunk (MSGA): the receiver buffered the *)
+(*              chunks (they count against MaxChunkCount, per message and  *)
+(*              for all incomplete messages of the channel together) and   *)
+(*              releases them on the abort (secure_channel.go 'A' case)    *)
 (*                                                                         *)
 (* Contract (OPC UA Part 6, 7.1.2.3/7.1.2.4), Dev_* = FALSE:               *)
 (*   a side sends chunks <= min(own send buffer, receive buffer the peer   *)
@@ -43,6 +48,7 @@ CONSTANTS Bufs,       \* buffer sizes to choose from
           DefMm, DefMc, \* what the client substitutes for a 0 in the Acknowledge (as-is only)
           Dev_AdoptAckVerbatim, Dev_ServerIgnoresHello, Dev_NoSendLimit,
           Dev_ServerZeroIsLimit,  \* the server's receive checks compare with 0 literally
+          Dev_AbortLeaksChunks,   \* deviation demo: an aborted message keeps its chunks counted
           Emit
 
 Cfg == [rb : Bufs, sb : Bufs, mm : Mms, mc : Mcs]
@@ -53,8 +59,10 @@ VARIABLES ccfg, scfg,  \* configured parameters (client: dialer ClientACK, serve
           st,          \* "init" | "helloed" | "acked" | "open" | "dead"
           hello, ack,  \* what was on the wire
           lim,         \* effective limits of both sides (see Limits)
-          msg          \* the message in flight / last message
-vars == <<ccfg, scfg, st, hello, ack, lim, msg>>
+          msg,         \* the message in flight / last message
+          buf          \* chunks of incomplete messages the receiver of each direction still holds
+vars == <<ccfg, scfg, st, hello, ack, lim, msg, buf>>
+NoBuf == [c2s |-> 0, s2c |-> 0]
 
 Min(a, b) == IF a < b THEN a ELSE b
 Unl(x) == x = 0                          \* 0 = unlimited
@@ -88,14 +96,14 @@ Limits(c, s, h, a) ==
 NoLim == Limits(NoCfg, NoCfg, NoCfg, NoCfg)
 
 Init == /\ ccfg \in Cfg /\ scfg \in Cfg
-        /\ st = "init" /\ hello = NoCfg /\ ack = NoCfg /\ lim = NoLim /\ msg = NoMsg
+        /\ st = "init" /\ hello = NoCfg /\ ack = NoCfg /\ lim = NoLim /\ msg = NoMsg /\ buf = NoBuf
 
 Hello == /\ st = "init" /\ hello' = ccfg /\ st' = "helloed"
-         /\ UNCHANGED <<ccfg, scfg, ack, lim, msg>>
+         /\ UNCHANGED <<ccfg, scfg, ack, lim, msg, buf>>
 SrvAck == /\ st = "helloed" /\ ack' = AckOf(hello, scfg) /\ st' = "acked"
-          /\ UNCHANGED <<ccfg, scfg, hello, lim, msg>>
+          /\ UNCHANGED <<ccfg, scfg, hello, lim, msg, buf>>
 CliAdopt == /\ st = "acked" /\ lim' = Limits(ccfg, scfg, hello, ack) /\ st' = "open"
-            /\ UNCHANGED <<ccfg, scfg, hello, ack, msg>>
+            /\ UNCHANGED <<ccfg, scfg, hello, ack, msg, buf>>
 
 \* the sender's view: chunk size and the peer's limits for this direction
 SendSize(d)  == IF d = "c2s" THEN lim.cs ELSE lim.ss
@@ -109,22 +117,34 @@ SendMsg(d, n) ==
     /\ IF OverLimit(n, SendSize(d), SendLim(d)) /\ ~Dev_NoSendLimit
        THEN msg' = [dir |-> d, len |-> n, chunks |-> <<>>, sent |-> "refused", recv |-> "-"]
        ELSE msg' = [dir |-> d, len |-> n, chunks |-> Chunks(n, SendSize(d)), sent |-> "wire", recv |-> "-"]
-    /\ UNCHANGED <<ccfg, scfg, st, hello, ack, lim>>
+    /\ UNCHANGED <<ccfg, scfg, st, hello, ack, lim, buf>>
 
 \* the receiver's verdict on the chunks of msg (the chunk count test of the code counts the
 \* intermediate chunks: secure_channel.go:377)
 Lit(d) == Dev_ServerZeroIsLimit /\ d = "c2s"
 WithinR(x, limit, d) == IF Lit(d) THEN x <= limit ELSE Within(x, limit)
 Verdict(m) == IF \E i \in 1..Len(m.chunks) : m.chunks[i] > RecvSize(m.dir) THEN "chunk-too-large"
-              ELSE IF ~WithinR(Len(m.chunks) - 1, RecvLim(m.dir).mc, m.dir) THEN "too-many-chunks"
+              ELSE IF ~WithinR(Len(m.chunks) - 1, RecvLim(m.dir).mc, m.dir)
+                      \/ (Len(m.chunks) > 1 /\ ~WithinR(buf[m.dir] + Len(m.chunks) - 1, RecvLim(m.dir).mc, m.dir))
+                   THEN "too-many-chunks"
               ELSE IF ~WithinR(m.len, RecvLim(m.dir).mm, m.dir) THEN "message-too-large"
               ELSE "ok"
 RecvMsg == /\ st = "open" /\ msg.sent = "wire"
            /\ msg' = [msg EXCEPT !.recv = Verdict(msg), !.sent = "done"]
            /\ st' = IF Verdict(msg) = "chunk-too-large" THEN "dead" ELSE st
-           /\ UNCHANGED <<ccfg, scfg, hello, ack, lim>>
+           /\ UNCHANGED <<ccfg, scfg, hello, ack, lim, buf>>
 
-Next == Hello \/ SrvAck \/ CliAdopt \/ RecvMsg \/ \E d \in {"c2s", "s2c"}, n \in Lens : SendMsg(d, n)
+\* j intermediate chunks of a message that is then aborted (only partial messages the receiver's
+\* limits admit: the abort, not a limit, ends them)
+AbortedMsg(d, j) ==
+    /\ st = "open" /\ msg.sent # "wire"
+    /\ WithinR(j, RecvLim(d).mc, d) /\ WithinR(buf[d] + j, RecvLim(d).mc, d)
+    /\ buf' = IF Dev_AbortLeaksChunks THEN [buf EXCEPT ![d] = buf[d] + j] ELSE buf
+    /\ UNCHANGED <<ccfg, scfg, st, hello, ack, lim, msg>>
+
+Next == \/ Hello \/ SrvAck \/ CliAdopt \/ RecvMsg
+        \/ \E d \in {"c2s", "s2c"}, n \in Lens : SendMsg(d, n)
+        \/ \E d \in {"c2s", "s2c"}, j \in 1..2 : AbortedMsg(d, j) /\ buf[d] < 4
 Spec == Init /\ [][Next]_vars
 
 ---------------------------------------------------------------------------
@@ -147,6 +167,8 @@ InvRefuse  == Refuses(msg)
 \* structural form of InvAccepts: the accept limit covers everything the peer may send
 InvAcceptLimit == st = "open" => /\ lim.cr >= Min(scfg.sb, hello.rb)
                                  /\ lim.sr >= Min(ccfg.sb, ack.rb)
+\* an aborted message leaves nothing behind
+InvAbortReleases == buf = NoBuf
 InvTypes == st \in {"init", "helloed", "acked", "open", "dead"}
 
 ---------------------------------------------------------------------------
